@@ -10,8 +10,8 @@ MUTATIONS = [
 
 def run(ctx):
     ctx.trusted = ['Coq 8.16.1 kernel (vm_compute on the finite tables)',
-                   'translator T5 (python/package/multitensor.pyx -> GenPyx.v) and T3 (multitensor.cpp -> GenCli.v): regular expressions in tools/translate.py; self-tested on every run by two built-in textual mutations that must break the theorems',
-                   'NO runtime correspondence: the Cython extension is not built in this sandbox (no Cython); what is verified is the source text of the dispatch blocks, not their compiled behaviour']
+                   'translator T5 (tools/pyxsim.py: run() of python/package/multitensor.pyx, Cython-only syntax removed, executed under recording stand-ins for numpy / the containers / the library for all 16 combinations -> GenPyx.v) and T3 (multitensor.cpp -> GenCli.v, regular expressions); T5 is self-tested on every run by two built-in mutations that must break the theorems',
+                   'NO runtime correspondence: the Cython extension is not built in this sandbox (no Cython); what is verified is the behaviour of the Python-level control flow of run() under stand-ins, not the compiled extension']
     ctx.prove()
     # translator self-test: the two built-in mutations of a scratch copy must make Properties_C19 fail
     detected = 0
@@ -46,30 +46,46 @@ def run(ctx):
             detected += 1
         else:
             ctx.tie_failures.append('translator self-test: mutation %r of multitensor.pyx is NOT detected' % name)
-    # list the table for the evidence; on a broken proof name the offending combination(s)
-    gp = open(os.path.join(vf.COQ, 'GenPyx.v')).read()
-    rows = re.findall(r'p_wint := (\(Some \w+\)|None); p_directed := (\(Some \w+\)|None); p_assort := (\(Some \w+\)|None); p_file := (\(Some \w+\)|None);\s*p_targs := \[(.*?)\]; p_vresize := (\w+);', gp)
-    table = [{'cond': r[:4], 'targs': r[4], 'vresize': r[5]} for r in rows]
-    if not ctx.proof_ok:
-        # search: which of the 16 combinations is served wrongly?
-        def lit(x):
-            return None if x == 'None' else ('true' in x)
-        bad = []
-        for wint in (True, False):
-            for d in (True, False):
-                for a in (True, False):
-                    for f in (True, False):
-                        sel = [r for r in rows if all(lit(r[i]) in (None, v) for i, v in enumerate((wint, d, a, f)))]
-                        exp = '"%s"; "%s[numpy.float_t]"; "%s"; "vertex_t"; "numpy.%s_t"' % (
-                            'bidirectionalS' if d else 'undirectedS', 'DiagonalTensor' if a else 'SymmetricTensor',
-                            ('init_symmetric_tensor_from_initial[%s[numpy.float_t]]' % ('DiagonalTensor' if a else 'SymmetricTensor')) if f else 'init_symmetric_tensor_random',
-                            'int' if wint else 'float')
-                        if len(sel) != 1 or sel[0][4] != exp or (sel[0][5] == 'true') != d:
-                            bad.append({'int_weights': wint, 'directed': d, 'assortative': a, 'affinity_file': f, 'blocks_selected': len(sel),
-                                        'template_arguments': [s[4] for s in sel], 'expected': exp})
-        for b in bad[:3]:
-            ctx.violation('dispatch', 'the Python entry point does not dispatch this argument combination to the instantiation it names', b)
+    # the behaviour table (from the simulator) for the evidence; on a broken proof name the offending combination(s)
+    import sys
+    sys.path.insert(0, os.path.join(vf.VERIF, 'tools'))
+    import pyxsim
+    table = []
+    try:
+        table = pyxsim.simulate(src)
+    except Exception as e:
+        ctx.notes.append('simulation of run() failed: %s' % str(e)[:300])
+    if not ctx.proof_ok or ctx.tie_failures:
+        for r in table:
+            wint, d, a, f = r['wint'], r['directed'], r['assort'], r['file']
+            tens = ('DiagonalTensor' if a else 'SymmetricTensor') + '[numpy.float_t]'
+            exp = ['bidirectionalS' if d else 'undirectedS', tens, ('init_symmetric_tensor_from_initial[%s]' % tens) if f else 'init_symmetric_tensor_random',
+                   'vertex_t', 'numpy.%s_t' % ('int' if wint else 'float')]
+            why = []
+            if len(r['calls']) != 1:
+                why.append('%d library calls instead of 1' % len(r['calls']))
+            else:
+                targs, args = r['calls'][0]
+                if targs != exp:
+                    why.append('instantiation %s, expected %s' % (targs, exp))
+                if len(args) != 11:
+                    why.append('%d positional arguments' % len(args))
+                else:
+                    if (args[8] == 'matrix nof_vertices x nof_groups') != d:
+                        why.append('in-membership matrix is %r at the call' % args[8])
+                    if any(x.startswith('unrecognised') for x in args):
+                        why.append('argument not recognised: %s' % [x for x in args if x.startswith('unrecognised')][:2])
+                    if args[3:6] != ['nof_realizations', 'max_nof_iterations', 'nof_convergences']:
+                        why.append('scalar arguments %s' % args[3:6])
+            if r['v_none'] != (not d):
+                why.append('returned in-membership is %s' % ('None' if r['v_none'] else 'an array'))
+            for k_ in ('u_ok', 'v_ok', 'aff_ok', 'report_ok'):
+                if not r[k_]:
+                    why.append('returned %s differs from the library result' % k_[:-3])
+            if why:
+                ctx.violation('dispatch', 'the Python entry point mishandles this argument combination: ' + '; '.join(why),
+                              {'int_weights': wint, 'directed': d, 'assortative': a, 'affinity_file': f, 'calls': r['calls'], 'v_none': r['v_none']})
     ctx.oracle.update({'evaluations': 16 + len(MUTATIONS), 'distinct_nontrivial': 16,
-                       'rule': 'exhaustive: all 16 argument combinations of the translated table (decided inside Coq by vm_compute); plus %d built-in mutations of the pyx text that the translator + theorems must reject (%d rejected)' % (len(MUTATIONS), detected)})
+                       'rule': 'exhaustive: run() executed under recording stand-ins for all 16 argument combinations (decided inside Coq by vm_compute over the generated behaviour table); plus %d built-in mutations of the pyx text that the translator + theorems must reject (%d rejected)' % (len(MUTATIONS), detected)})
     ctx.extra['exhaustive'] = True
-    ctx.samples = table[:3]
+    ctx.samples = [{k_: r[k_] for k_ in ('wint', 'directed', 'assort', 'file', 'calls', 'v_none')} for r in table[:2]]
